@@ -13,7 +13,10 @@ Anything not recognised raises Unsupported -> the check is inconclusive
 (exit 2), never a verdict.
 """
 import re
+import sys
 import z3
+
+sys.setrecursionlimit(100000)
 
 
 class Unsupported(Exception):
@@ -183,6 +186,19 @@ class Ref:
         self.val = val
 
 
+class _Outcomes(list):
+    """list of (cond, kind, value) that also snapshots the machine's store per outcome"""
+
+    def __init__(self, mach):
+        super().__init__()
+        self.mach = mach
+        self.stores = []
+
+    def append(self, x):
+        super().append(x)
+        self.stores.append(dict(self.mach.store))
+
+
 class Machine:
     """Executes MIR functions symbolically."""
 
@@ -195,6 +211,8 @@ class Machine:
         self.max_paths = max_paths
         self.encoded = []  # names of MIR functions actually executed
         self.modelled = []  # names of calls answered by a model
+        self.store = {}     # path-local mutable state of models (e.g. a bit stream's cursor)
+        self.out_stores = []  # store snapshot per outcome of the outermost exec_fn
 
     # ---- lookup
     def find(self, suffix, param_types=None, ret=None):
@@ -309,6 +327,9 @@ class Machine:
     # ---- rvalues
     def rvalue(self, env, f, dst, rv):
         rv = rv.strip()
+        pc = re.match(r"^(copy|move|const) (.+) as (.+?) \(PointerCoercion\(.*\)\)$", rv)
+        if pc:
+            return self.operand(env, pc.group(1) + " " + pc.group(2))
         m = re.match(r"^(copy|move|const) (.+) as (\w+) \((\w+)\)$", rv)
         if rv.startswith(("copy ", "move ", "const ")) and not m:
             return self.operand(env, rv)
@@ -398,6 +419,12 @@ class Machine:
                 except NotMine:
                     continue
                 self.modelled.append(name)
+                # a model may return 4-tuples (cond, kind, value, store_update)
+                if r and len(r[0]) == 4:
+                    self.out_stores = [dict(self.store, **u) for (_, _, _, u) in r]
+                    r = [(c, k, v) for (c, k, v, _) in r]
+                else:
+                    self.out_stores = None
                 return r
         f = self.resolve(name, args)
         return self.exec_fn(f, args)
@@ -446,9 +473,10 @@ class Machine:
         env = {}
         for (pn, pt), a in zip(f.params, args):
             env[pn] = a
-        outcomes = []
+        outcomes = _Outcomes(self)
         self._exec_block(f, "bb0", env, z3.BoolVal(True), outcomes, set(), [0])
-        return outcomes
+        self.out_stores = outcomes.stores
+        return list(outcomes)
 
     def _exec_block(self, f, bb, env, cond, outcomes, onpath, counter):
         if bb in onpath:
@@ -487,7 +515,9 @@ class Machine:
                     c2 = z3.simplify(z3.And(cond, c))
                     if z3.is_false(c2):
                         continue
+                    saved = dict(self.store)
                     self._exec_block(f, tgt, env, c2, outcomes, onpath, counter)
+                    self.store = saved
                 return
             m = re.match(r"^assert\((!?)(.+?), \"(.*?)\".*\) -> \[success: (bb\d+), unwind.*\]$", s)
             if m:
@@ -526,16 +556,22 @@ class Machine:
             if m and not m.group(2).strip() in BINOPS and not re.match(r"^(copy|move|const|&)", m.group(2).strip()):
                 dst, callee, argstr, nxt = m.group(1), m.group(2).strip(), m.group(3), m.group(4)
                 args = [self.operand(env, a) for a in split_top(argstr)] if argstr.strip() else []
-                for (c, kind, val) in self.call(callee, args, cond):
+                call_outs = self.call(callee, args, cond)
+                call_stores = list(self.out_stores) if (self.out_stores is not None and len(self.out_stores) == len(call_outs)) else None
+                after_call = dict(self.store)
+                for i_out, (c, kind, val) in enumerate(call_outs):
                     c2 = z3.simplify(z3.And(cond, c))
                     if z3.is_false(c2):
                         continue
+                    # each outcome continues from the store the callee left on that path
+                    self.store = dict(call_stores[i_out]) if call_stores is not None else dict(after_call)
                     if kind == "panic":
                         outcomes.append((c2, "panic", val))
                     else:
                         e2 = dict(env)
                         self.write_place(e2, dst, val)
                         self._exec_block_from(f, nxt, e2, c2, outcomes, onpath, counter)
+                self.store = after_call
                 return
             m = re.match(r"^(.+?) = (.+?)\((.*)\) -> unwind.*$", s)
             if m and "::" in m.group(2):
